@@ -13,7 +13,7 @@ package onnx
 //@ spec wrap64(v int) int = ite(v >= 9223372036854775808, v - 18446744073709551616, v)
 
 //@ func ReadFloat32ArrayFromBytes
-//@   tags C12,C18,C11
+//@   tags C12,C18,C11,C02
 //@   ensures exact: len(data) % 4 == 0 ==> err == nil && len(result) == len(data) / 4 &&
 //@                  (forall k :: 0 <= k && k < len(result) ==> result[k] == f32frombits(le32(data, 4*k)))
 //@   ensures ragged_is_error: len(data) % 4 != 0 ==> err != nil
@@ -23,7 +23,7 @@ package onnx
 //@   loop 1 invariant forall k :: 0 <= k && k < len(values) ==> values[k] == f32frombits(le32(data, 4*k))
 
 //@ func ReadFloat64ArrayFromBytes
-//@   tags C12,C18,C11
+//@   tags C12,C18,C11,C02
 //@   ensures exact: len(data) % 8 == 0 ==> err == nil && len(result) == len(data) / 8 &&
 //@                  (forall k :: 0 <= k && k < len(result) ==> result[k] == f64frombits(le64(data, 8*k)))
 //@   ensures ragged_is_error: len(data) % 8 != 0 ==> err != nil
@@ -33,7 +33,7 @@ package onnx
 //@   loop 1 invariant forall k :: 0 <= k && k < len(values) ==> values[k] == f64frombits(le64(data, 8*k))
 
 //@ func ReadUint8ArrayFromBytes
-//@   tags C12,C18,C11
+//@   tags C12,C18,C11,C02
 //@   ensures exact: len(data) % 1 == 0 ==> err == nil && len(result) == len(data) / 1 &&
 //@                  (forall k :: 0 <= k && k < len(result) ==> result[k] == data[k])
 //@   ensures ragged_is_error: len(data) % 1 != 0 ==> err != nil
@@ -43,7 +43,7 @@ package onnx
 //@   loop 1 invariant forall k :: 0 <= k && k < len(values) ==> values[k] == data[k]
 
 //@ func ReadInt8ArrayFromBytes
-//@   tags C12,C18,C11
+//@   tags C12,C18,C11,C02
 //@   ensures exact: len(data) % 1 == 0 ==> err == nil && len(result) == len(data) / 1 &&
 //@                  (forall k :: 0 <= k && k < len(result) ==> result[k] == wrap8(data[k]))
 //@   ensures ragged_is_error: len(data) % 1 != 0 ==> err != nil
@@ -53,7 +53,7 @@ package onnx
 //@   loop 1 invariant forall k :: 0 <= k && k < len(values) ==> values[k] == wrap8(data[k])
 
 //@ func ReadUint16ArrayFromBytes
-//@   tags C12,C18,C11
+//@   tags C12,C18,C11,C02
 //@   ensures exact: len(data) % 2 == 0 ==> err == nil && len(result) == len(data) / 2 &&
 //@                  (forall k :: 0 <= k && k < len(result) ==> result[k] == le16(data, 2*k))
 //@   ensures ragged_is_error: len(data) % 2 != 0 ==> err != nil
@@ -63,7 +63,7 @@ package onnx
 //@   loop 1 invariant forall k :: 0 <= k && k < len(values) ==> values[k] == le16(data, 2*k)
 
 //@ func ReadInt16ArrayFromBytes
-//@   tags C12,C18,C11
+//@   tags C12,C18,C11,C02
 //@   ensures exact: len(data) % 2 == 0 ==> err == nil && len(result) == len(data) / 2 &&
 //@                  (forall k :: 0 <= k && k < len(result) ==> result[k] == wrap16(le16(data, 2*k)))
 //@   ensures ragged_is_error: len(data) % 2 != 0 ==> err != nil
@@ -73,7 +73,7 @@ package onnx
 //@   loop 1 invariant forall k :: 0 <= k && k < len(values) ==> values[k] == wrap16(le16(data, 2*k))
 
 //@ func ReadUint32ArrayFromBytes
-//@   tags C12,C18,C11
+//@   tags C12,C18,C11,C02
 //@   ensures exact: len(data) % 4 == 0 ==> err == nil && len(result) == len(data) / 4 &&
 //@                  (forall k :: 0 <= k && k < len(result) ==> result[k] == le32(data, 4*k))
 //@   ensures ragged_is_error: len(data) % 4 != 0 ==> err != nil
@@ -83,7 +83,7 @@ package onnx
 //@   loop 1 invariant forall k :: 0 <= k && k < len(values) ==> values[k] == le32(data, 4*k)
 
 //@ func ReadInt32ArrayFromBytes
-//@   tags C12,C18,C11
+//@   tags C12,C18,C11,C02
 //@   ensures exact: len(data) % 4 == 0 ==> err == nil && len(result) == len(data) / 4 &&
 //@                  (forall k :: 0 <= k && k < len(result) ==> result[k] == wrap32(le32(data, 4*k)))
 //@   ensures ragged_is_error: len(data) % 4 != 0 ==> err != nil
@@ -93,7 +93,7 @@ package onnx
 //@   loop 1 invariant forall k :: 0 <= k && k < len(values) ==> values[k] == wrap32(le32(data, 4*k))
 
 //@ func ReadUint64ArrayFromBytes
-//@   tags C12,C18,C11
+//@   tags C12,C18,C11,C02
 //@   ensures exact: len(data) % 8 == 0 ==> err == nil && len(result) == len(data) / 8 &&
 //@                  (forall k :: 0 <= k && k < len(result) ==> result[k] == le64(data, 8*k))
 //@   ensures ragged_is_error: len(data) % 8 != 0 ==> err != nil
@@ -103,7 +103,7 @@ package onnx
 //@   loop 1 invariant forall k :: 0 <= k && k < len(values) ==> values[k] == le64(data, 8*k)
 
 //@ func ReadInt64ArrayFromBytes
-//@   tags C12,C18,C11
+//@   tags C12,C18,C11,C02
 //@   ensures exact: len(data) % 8 == 0 ==> err == nil && len(result) == len(data) / 8 &&
 //@                  (forall k :: 0 <= k && k < len(result) ==> result[k] == wrap64(le64(data, 8*k)))
 //@   ensures ragged_is_error: len(data) % 8 != 0 ==> err != nil
@@ -113,38 +113,38 @@ package onnx
 //@   loop 1 invariant forall k :: 0 <= k && k < len(values) ==> values[k] == wrap64(le64(data, 8*k))
 
 //@ func ReadBoolArrayFromBytes
-//@   tags C12,C18,C11
+//@   tags C12,C18,C11,C02
 //@   ensures len(result) == len(data) && (forall k :: 0 <= k && k < len(data) ==> (result[k] <==> data[k] > 0))
 //@   ensures fresh(result)
 //@   loop 1 invariant forall k :: 0 <= k && k < $i ==> (values[k] <==> data[k] > 0)
 
 //@ func Int32ArrayToBoolArray
-//@   tags C12,C18,C11
+//@   tags C12,C18,C11,C02
 //@   ensures len(result) == len(arr) && (forall k :: 0 <= k && k < len(arr) ==> (result[k] <==> arr[k] == 1))
 //@   loop 1 invariant forall k :: 0 <= k && k < $i ==> (newArr[k] <==> arr[k] == 1)
 
 //@ func Int32ArrayToInt8Array
-//@   tags C12,C18,C11
+//@   tags C12,C18,C11,C02
 //@   ensures len(result) == len(arr) && (forall k :: 0 <= k && k < len(arr) ==> result[k] == (arr[k] + 128) % 256 + ite((arr[k] + 128) % 256 < 0, 256, 0) - 128)
 //@   loop 1 invariant forall k :: 0 <= k && k < $i ==> newArr[k] == (arr[k] + 128) % 256 + ite((arr[k] + 128) % 256 < 0, 256, 0) - 128
 
 //@ func Int32ArrayToUint8Array
-//@   tags C12,C18,C11
+//@   tags C12,C18,C11,C02
 //@   ensures len(result) == len(arr) && (forall k :: 0 <= k && k < len(arr) ==> result[k] == arr[k] % 256 + ite(arr[k] % 256 < 0, 256, 0))
 //@   loop 1 invariant forall k :: 0 <= k && k < $i ==> newArr[k] == arr[k] % 256 + ite(arr[k] % 256 < 0, 256, 0)
 
 //@ func Int32ArrayToInt16Array
-//@   tags C12,C18,C11
+//@   tags C12,C18,C11,C02
 //@   ensures len(result) == len(arr) && (forall k :: 0 <= k && k < len(arr) ==> result[k] == (arr[k] + 32768) % 65536 + ite((arr[k] + 32768) % 65536 < 0, 65536, 0) - 32768)
 //@   loop 1 invariant forall k :: 0 <= k && k < $i ==> newArr[k] == (arr[k] + 32768) % 65536 + ite((arr[k] + 32768) % 65536 < 0, 65536, 0) - 32768
 
 //@ func Int32ArrayToUint16Array
-//@   tags C12,C18,C11
+//@   tags C12,C18,C11,C02
 //@   ensures len(result) == len(arr) && (forall k :: 0 <= k && k < len(arr) ==> result[k] == arr[k] % 65536 + ite(arr[k] % 65536 < 0, 65536, 0))
 //@   loop 1 invariant forall k :: 0 <= k && k < $i ==> newArr[k] == arr[k] % 65536 + ite(arr[k] % 65536 < 0, 65536, 0)
 
 //@ func Uint64ArrayToUint32Array
-//@   tags C12,C18,C11
+//@   tags C12,C18,C11,C02
 //@   ensures len(result) == len(arr) && (forall k :: 0 <= k && k < len(arr) ==> result[k] == arr[k] % 4294967296 + ite(arr[k] % 4294967296 < 0, 4294967296, 0))
 //@   loop 1 invariant forall k :: 0 <= k && k < $i ==> newArr[k] == arr[k] % 4294967296 + ite(arr[k] % 4294967296 < 0, 4294967296, 0)
 
@@ -154,7 +154,7 @@ package onnx
 //@      ite(d == 6, Int32, ite(d == 7, Int64, ite(d == 9, Bool, ite(d == 11, Float64, ite(d == 12, Uint32, Uint64))))))))))
 
 //@ func getDims
-//@   tags C12,C18,C11
+//@   tags C12,C18,C11,C02
 //@   requires tensor != nil
 //@   ensures len(result) == len(tensor.Dims) && fresh(result) && (forall k :: 0 <= k && k < len(result) ==> result[k] == tensor.Dims[k])
 //@   loop 1 invariant len(dims) == len(tensor.Dims) && (forall k :: 0 <= k && k < $i ==> dims[k] == tensor.Dims[k])
@@ -162,7 +162,7 @@ package onnx
 //@ spec typed_field_populated(tp *TensorProto) bool = len(tp.FloatData) > 0 || len(tp.Int32Data) > 0 || len(tp.Int64Data) > 0 || len(tp.DoubleData) > 0 || len(tp.Uint64Data) > 0
 
 //@ func TensorFromProto
-//@   tags C12,C18,C11
+//@   tags C12,C18,C11,C02
 //@   requires tp != nil
 //@   loop 1 invariant nElements == prod(arr(dims), off(dims), $i) && (forall k :: 0 <= k && k < $i ==> dims[k] >= 1)
 //@   ensures [C12] unsupported_type_refused: !supported_dt(tp.DataType) && !typed_field_populated(tp) ==> err != nil
@@ -232,7 +232,7 @@ package onnx
 //@        (forall j :: i < j && j < n ==> !(hasshape(protos[j]) && vname(protos[j]) == vname(protos[i])))
 
 //@ func getShapesFromValueProto
-//@   tags C13
+//@   tags C13,C02
 //@   ensures nonnil: result != nil && fresh(result)
 //@   ensures covers: forall i :: 0 <= i && i < len(protos) && hasshape(protos[i]) ==> vname(protos[i]) in result
 //@   ensures witness: forall name string :: name in result ==>
@@ -251,7 +251,7 @@ package onnx
 //@ spec inits_non_nil(g *GraphProto) bool = g == nil || (forall i :: 0 <= i && i < len(g.Initializer) ==> g.Initializer[i] != nil)
 
 //@ func (*GraphProto).Params
-//@   tags C12,C18,C11
+//@   tags C12,C18,C11,C02
 //@   requires inits_non_nil(g)
 //@   ensures err == nil ==> result != nil && fresh(result) && (forall key string :: key in result ==> result[key] != nil)
 //@   ensures err != nil ==> result == nil
@@ -260,6 +260,6 @@ package onnx
 //@          (forall key string :: key in res ==> res[key] != nil)
 
 //@ func getNamesFromValueProto
-//@   tags C01,C13
+//@   tags C01,C13,C02
 //@   ensures len(result) == len(protos) && (len(protos) > 0 ==> fresh(result)) && (forall k :: 0 <= k && k < len(protos) ==> result[k] == vname(protos[k]))
 //@   loop 1 invariant len(res) == len(protos) && fresh(res) && (forall k :: 0 <= k && k < $i ==> res[k] == vname(protos[k]))
